@@ -143,7 +143,7 @@ std::vector<Probe> build_probes() {
     addw("put_u16b(0x8001)", "put_u16b", [j](World& w) { w.w[j].put_u16b(0x8001); w.mw[j].push_back(0x80); w.mw[j].push_back(0x01); });
     addw("put_u64l(0x8001020304050607)", "put_u64l", [j](World& w) { w.w[j].put_u64l(0x8001020304050607ull); uint8_t b[8]; enc(b, 0x8001020304050607ull, 8, LE); w.mw[j].insert(w.mw[j].end(), b, b + 8); });
     addw("put_f32b(NaN payload)", "put_f32b", [j](World& w) { w.w[j].put_f32b(from_bits<float>(0x7FC00001)); uint8_t b[4]; enc(b, 0x7FC00001, 4, BE); w.mw[j].insert(w.mw[j].end(), b, b + 4); });
-    addw("write(\"abc\")", "write", [j](World& w) { w.w[j].write(std::string("abc")); for (char ch : std::string("abc")) w.mw[j].push_back(ch); });
+    addw("write(\"abc\")", "write", [j](World& w) { w.w[j].write("abc");  /* string literal: binds to write(const std::string&) */ for (char ch : std::string("abc")) w.mw[j].push_back(ch); });
     addw("write(17 bytes)", "write", [j](World& w) { w.w[j].write("0123456789ABCDEFG", 17); for (char ch : std::string("0123456789ABCDEFG")) w.mw[j].push_back(ch); });
     addw("pput_u32l(0, 0xDEADBEEF)", "pput_u32l", [j](World& w) { w.w[j].pput_u32l(0, 0xDEADBEEF); if (w.mw[j].size() < 4) w.mw[j].resize(4, 0); uint8_t b[4]; enc(b, 0xDEADBEEF, 4, LE); memcpy(w.mw[j].data(), b, 4); });
     addw("pput_u16b(size+2, 0xBEEF)", "pput_u16b", [j](World& w) { size_t o = w.mw[j].size() + 2; w.w[j].pput_u16b(o, 0xBEEF); w.mw[j].resize(o + 2, 0); w.mw[j][o] = 0xBE; w.mw[j][o + 1] = 0xEF; });
@@ -159,7 +159,7 @@ std::vector<Probe> build_probes() {
     addb("put_u8(0x41)", "bw_put_u8", [](World& w) { if (w.bcur + 1 > 32) return; w.bw.put_u8(0x41); w.mb[w.bcur] = 0x41; w.bcur += 1; });
     addb("pput_u8(1, 0x00)", "bw_pput_u8", [](World& w) { w.bw.pput_u8(1, 0); w.mb[1] = 0; });
     addb("pput_u8(1, 0x51)", "bw_pput_u8", [](World& w) { w.bw.pput_u8(1, 0x51); w.mb[1] = 0x51; });
-    addb("pwrite(2, \"\\n!\")", "pwrite_str", [](World& w) { w.bw.pwrite(2, std::string("\n!")); w.mb[2] = '\n'; w.mb[3] = '!'; });
+    addb("pwrite(2, \"\\n!\")", "pwrite_str", [](World& w) { w.bw.pwrite(2, "\n!");  /* string literal: binds to pwrite(size_t, const std::string&) */ w.mb[2] = '\n'; w.mb[3] = '!'; });
     addb("pput_u32b(28, 0x80FF7F01)", "bw_pput_u32b", [](World& w) { w.bw.pput_u32b(28, 0x80FF7F01); uint8_t b[4]; enc(b, 0x80FF7F01, 4, BE); memcpy(w.mb.data() + 28, b, 4); });
     // the reader over the same memory must see what the bytes are NOW
     ps.push_back({"reader over the writer's buffer.pget_cstr(0)", "pget_cstr", [=](World& w, std::string* g, std::string* e) { std::string want; model_cstr(w.mb.data(), 32, 0, &want); return cmp(s_or_throw([&] { return w.rb.pget_cstr(0); }), want, g, e); }});
@@ -330,7 +330,7 @@ uint8_t pat(uint64_t i) { return (uint8_t)(((i * 0x9E3779B97F4A7C15ull) >> 29) ^
 
 }  // namespace
 
-VF_SECTION(pairs, 16, 16, 60) {
+VF_SECTION(pairs, 16, 16, 180) {
   auto probes = build_probes();
   const size_t N = probes.size();
   r.note("call pairs");
@@ -381,7 +381,7 @@ VF_SECTION(pairs, 16, 16, 60) {
   r.bound = vf::fmt("%zu probe calls on persistent objects (three StringReaders over 3/9/40 bytes: pget_cstr, get_cstr, get_line, pread/preadx/read/readx in string and buffer forms, peek, sub, all, pget of every kind that fits, get of all 42 kinds; two StringWriters: put/write/pput/reset; a BufferWriter and a StringReader sharing one 32-byte buffer: positional writes that change what the reader must see; two BitWriters; two BitReaders): %s, every result compared with the model", N, r.thorough() ? "every ordered triple A, B, C" : "every ordered pair executed as A, B, A");
 }
 
-VF_SECTION(context, 4, 4, 60) {
+VF_SECTION(context, 4, 4, 180) {
   std::vector<uint64_t> seeds = structured_values(8);
   seeds.resize(r.thorough() ? seeds.size() : 48);
   r.note("contexts");
@@ -403,7 +403,95 @@ VF_SECTION(context, 4, 4, 60) {
   r.bound = vf::fmt("%zu seeds x 7 execution contexts (plain, two kinds of catch handler, destructor during unwinding, nested, second thread, second thread unwinding): all 42 kinds appended to a StringWriter and to an exactly-full BufferWriter, C string, positional back-patch with the cursor at the end, a failing read caught and recovered from, sequential + positional read-back, BitWriter write/truncate/write + BitReader", seeds.size());
 }
 
-VF_SECTION(far, 1, 1, 120) {
+// BlockStringWriter: the fourth writer of Strings.hh (blocks kept apart until close()); typed values appended with
+// put<T>, raw blocks with the three write overloads; close() must give the concatenation in order, close(sep) the
+// blocks joined by sep.
+VF_SECTION(block_writer, 4, 4, 180) {
+  struct BOp { const char* name; int t; };
+  static const BOp ops[] = {{"put<be_uint16_t>(0x8001)", 0}, {"put<le_uint32_t>(0x80010203)", 1}, {"put<S3>", 2}, {"put<double>(-0.0)", 3}, {"put<uint8_t>(0)", 4},
+      {"write(ptr, 3)", 5}, {"write(const std::string&) with a NUL", 6}, {"write(std::string&&) of 17 bytes", 7}, {"write(\"\")", 8}, {"write_printf(\"%d|%s\", -7, \"x\")", 9}};
+  const size_t NOPS = sizeof(ops) / sizeof(ops[0]);
+  const size_t depth = r.thorough() ? 5 : 4;
+  r.note("BlockStringWriter histories");
+  for (size_t len = 0; len <= depth; len++) {
+    std::vector<uint32_t> seq(len, 0);
+    bool more = true;
+    while (more) {
+      if (r.take()) {
+        auto hd = [&] {
+          std::string s = "BlockStringWriter history [";
+          for (size_t i = 0; i < seq.size(); i++) s += (i ? "; " : "") + std::string(ops[seq[i]].name);
+          return s + "]";
+        };
+        if (r.wants_desc()) r.desc(hd());
+        r.nontriv();
+        r.states++;
+        try {
+          BlockStringWriter w;
+          std::vector<std::string> blocks;
+          for (uint32_t oi : seq) {
+            r.transitions++;
+            uint8_t ref[16];
+            switch (ops[oi].t) {
+              case 0: w.put<be_uint16_t>(be_uint16_t(0x8001)); enc(ref, 0x8001, 2, BE); blocks.emplace_back((const char*)ref, 2); break;
+              case 1: w.put<le_uint32_t>(le_uint32_t(0x80010203)); enc(ref, 0x80010203, 4, LE); blocks.emplace_back((const char*)ref, 4); break;
+              case 2: { S3 x = make_S3(0x80F1E2, ref); w.put<S3>(x); blocks.emplace_back((const char*)ref, 3); break; }
+              case 3: w.put<double>(-0.0); enc(ref, 0x8000000000000000ull, 8, LE); blocks.emplace_back((const char*)ref, 8); break;
+              case 4: w.put<uint8_t>(0); blocks.emplace_back(1, '\0'); break;
+              case 5: w.write("xyz", 3); blocks.emplace_back("xyz"); break;
+              case 6: { std::string s("a\0b", 3); w.write(s); blocks.push_back(s); break; }
+              case 7: { std::string s("0123456789ABCDEFG"); w.write(std::move(s)); blocks.emplace_back("0123456789ABCDEFG"); break; }
+              case 8: w.write(std::string()); blocks.emplace_back(); break;
+              default: w.write_printf("%d|%s", -7, "x"); blocks.emplace_back("-7|x"); break;
+            }
+          }
+          std::string cat, joined;
+          for (size_t i = 0; i < blocks.size(); i++) {
+            cat += blocks[i];
+            joined += (i ? "\x1F|" : "") + blocks[i];
+          }
+          std::string g0 = w.close(), g1 = w.close(""), g2 = w.close("\x1F|");
+          if (g0 != cat || g1 != cat) r.fail("BlockStringWriter_close:bytes", [&] { return hd() + " :: close() gives " + hexb(g0.data(), g0.size()) + " / close(\"\") " + hexb(g1.data(), g1.size()) + ", concatenation of what was appended is " + hexb(cat.data(), cat.size()); });
+          else if (g2 != joined) r.fail("BlockStringWriter_close:separator", [&] { return hd() + " :: close(sep) gives " + hexb(g2.data(), g2.size()) + ", blocks joined by the separator are " + hexb(joined.data(), joined.size()); });
+          else {
+            // the typed values must read back from the concatenation
+            StringReader rd(g0);
+            bool good = true;
+            for (uint32_t oi : seq) {
+              switch (ops[oi].t) {
+                case 0: good = good && rd.get_u16b() == 0x8001; break;
+                case 1: good = good && rd.get_u32l() == 0x80010203u; break;
+                case 2: { const S3& x = rd.get<S3>(); good = good && x.a == 0x80 && (uint16_t)x.b == 0xF1E2; break; }
+                case 3: good = good && to_bits<double>(rd.get<double>()) == 0x8000000000000000ull; break;
+                case 4: good = good && rd.get_u8() == 0; break;
+                case 5: good = good && rd.readx(3) == "xyz"; break;
+                case 6: good = good && rd.readx(3) == std::string("a\0b", 3); break;
+                case 7: good = good && rd.readx(17) == "0123456789ABCDEFG"; break;
+                case 8: break;
+                default: good = good && rd.readx(4) == "-7|x"; break;
+              }
+            }
+            if (!good || !rd.eof()) r.fail("BlockStringWriter_close:readback", [&] { return hd() + " :: the values appended do not read back in order from close()"; });
+            else r.ok(vf::fmt("block-writer-ok/len%zu", len));
+          }
+        } catch (const std::exception& e) {
+          std::string wh = e.what();
+          r.fail("BlockStringWriter:throws", [&] { return hd() + " :: unexpected exception " + wh; });
+        }
+      }
+      size_t i = len;
+      for (;;) {
+        if (i == 0) { more = false; break; }
+        i--;
+        if (++seq[i] < NOPS) break;
+        seq[i] = 0;
+      }
+    }
+  }
+  r.bound = vf::fmt("all operation sequences of length 0..%zu over %zu BlockStringWriter operations (put<T> with endian wrappers, a packed struct, double, uint8_t; write(ptr,len), write(const std::string&), write(std::string&&), empty block, write_printf); close(), close(\"\") and close(separator) compared with the concatenation / join of the appended bytes, then read back with StringReader", depth, NOPS);
+}
+
+VF_SECTION(far, 1, 1, 300) {
   const size_t HUGE[] = {0x7FFFFFFFFFFFFFFFull, 0x8000000000000000ull, ~(size_t)0 - 1, ~(size_t)0};
   const size_t G4 = 0x100000000ull, G2 = 0x80000000ull;
   // ---- A/B: StringReader and BufferWriter over a sparse 4 GiB + 64 KiB mapping ---------------------------------------
@@ -712,6 +800,23 @@ VF_SECTION(far, 1, 1, 120) {
       }
       r.ok("executed-not-compared" + outs);
     }
+  }
+  // ---- don't-care: size arguments nothing can satisfy (executed; outcome recorded, not compared) -----------------------------
+  if (r.take()) {
+    if (r.wants_desc()) r.desc("don't-care: truncate / extend_by / extend_to / skip / BitWriter::truncate with 2^63-1 .. SIZE_MAX");
+    std::string outs;
+    for (size_t h : HUGE) {
+      Exact b(8);
+      StringReader rd(b.p, 8, 3);
+      BitReader br(b.p, 64, 3);
+      StringWriter sw;
+      sw.put_u8(1);
+      BitWriter bw;
+      bw.write(true);
+      outs += "/" + vf::outcome([&] { rd.truncate(h); }) + "," + vf::outcome([&] { rd.skip(h); }) + "," + vf::outcome([&] { br.truncate(h); }) + "," + vf::outcome([&] { sw.extend_by(h); }) + "," + vf::outcome([&] { sw.extend_to(h); }) + "," + vf::outcome([&] { bw.truncate(h); });
+      if (rd.size() != 8 || br.size() != 64 || bw.size() != 1 || bw.str() != "\x80") r.fail("far:refused-call-changed-object", [&] { return vf::fmt("a refused truncate(%zu) changed the object: reader size %zu, bit reader size %zu, bit writer size %zu", h, rd.size(), br.size(), bw.size()); });
+    }
+    r.ok("executed-not-compared" + outs);
   }
   // ---- F: long BitWriter contents -------------------------------------------------------------------------------------------
   r.note("long BitWriter");
